@@ -92,11 +92,18 @@ func RunIndex(c *core.Ctx) {
 	}
 
 	// index content: duplicates, nil, mixed types
-	prof := gen.Pick(r, []gen.Profile{{Kind: gen.PSmallInt, Nil: 10}, {Kind: gen.PMixedNum, Nil: 10}, {Kind: gen.PString, Nil: 10}, {Kind: gen.PMixed}, {Kind: gen.PTime, Nil: 10}, {Kind: gen.PMixed, Nil: 20}, {Kind: gen.PArray}, {Kind: gen.PEdge}, {Kind: gen.PEdge, Nil: 10}})
+	prof := gen.Pick(r, []gen.Profile{{Kind: gen.PSmallInt, Nil: 10}, {Kind: gen.PMixedNum, Nil: 10}, {Kind: gen.PString, Nil: 10}, {Kind: gen.PMixed}, {Kind: gen.PTime, Nil: 10}, {Kind: gen.PMixed, Nil: 20}, {Kind: gen.PArray}, {Kind: gen.PEdge}, {Kind: gen.PEdge, Nil: 10}, {Kind: gen.PLongStr, Nil: 10}})
 	n := gen.Pick(r, []int{0, 1, 3, 8, 20, 40, 8, 20, 260, 700})
 	entries := make([]idxEntry, n)
 	for i := range entries {
 		entries[i] = idxEntry{id: r.UUIDMaybeUpper(), v: r.Value(prof)}
+	}
+	if prof.Kind == gen.PLongStr {
+		for i := range entries {
+			if r.Bool() {
+				entries[i].v = gen.Pick(r, gen.LongStringsAll)
+			}
+		}
 	}
 	if n >= 260 {
 		// long runs of duplicates (52, or 140: more than badger's prefetch window of 100), of values with equally long encodings
